@@ -196,8 +196,8 @@ PLAN['C06'] = flow_plan(
 # accumulate() is a const query that may be called from several threads on one routed graph: h_conc runs concurrent calls
 # (asan: results compared with the sequential ones; tsan: any report is a violation)
 _c03q, _c03t = PLAN['C03']['quick'], PLAN['C03']['thorough']
-PLAN['C03']['quick'] = lambda seed: _c03q(seed) + runs('h_conc', ['raster_queen'], 'asan', 1, 12, ['--x-repeats', '1'], prop='C03', case_timeout=300) \
-                                    + runs('h_conc', ['trimesh'], 'tsan', 1, 8, ['--x-delays', '0', '--x-repeats', '1'], prop='C03', case_timeout=300)
+PLAN['C03']['quick'] = lambda seed: _c03q(seed) + runs('h_conc', ['raster_queen'], 'asan', 1, 18, ['--x-repeats', '1'], prop='C03', case_timeout=300) \
+                                    + runs('h_conc', ['trimesh'], 'tsan', 1, 18, ['--x-delays', '0', '--x-repeats', '1'], prop='C03', case_timeout=300)
 PLAN['C03']['thorough'] = lambda seed: _c03t(seed) + runs('h_conc', ['raster_queen', 'trimesh'], 'asan', 1, 150, prop='C03', case_timeout=600) \
                                        + runs('h_conc', ['raster_queen', 'trimesh'], 'tsan', 1, 60, ['--x-delays', '0'], prop='C03', case_timeout=900)
 PLAN['C03']['rule'] += (' Plus concurrent accumulate() calls from two threads with different sources on one routed graph (h_conc, ASan and TSan '
@@ -445,8 +445,8 @@ PLAN['C08'] = {
 # ThreadSanitizer must see no access shared between the families (function-local statics, class statics, lazy initialisation).
 def _indep(pid, kinds_q, kinds_t, floor_counter):
     q0, t0 = PLAN[pid]['quick'], PLAN[pid]['thorough']
-    PLAN[pid]['quick'] = lambda seed: q0(seed) + runs('h_conc', kinds_q[:1], 'asan', 1, 10, prop=pid, case_timeout=300) \
-                                               + runs('h_conc', kinds_q[-1:], 'tsan', 1, 8, ['--x-delays', '0'], prop=pid, case_timeout=300)
+    PLAN[pid]['quick'] = lambda seed: q0(seed) + runs('h_conc', kinds_q[:1], 'asan', 1, 16, prop=pid, case_timeout=300) \
+                                               + runs('h_conc', kinds_q[-1:], 'tsan', 1, 14, ['--x-delays', '0'], prop=pid, case_timeout=300)
     PLAN[pid]['thorough'] = lambda seed: t0(seed) + runs('h_conc', kinds_t, 'asan', 1, 200, prop=pid, case_timeout=600) \
                                                   + runs('h_conc', kinds_t, 'tsan', 1, 80, ['--x-delays', '0'], prop=pid, case_timeout=900)
     PLAN[pid]['rule'] += (' Plus (h_conc, ASan and TSan flavours) two independent object families driven through the same steps one after '
@@ -460,6 +460,15 @@ _indep('C09', ['raster_queen', 'trimesh'], ['raster_queen', 'raster_rook_nc', 'p
 _indep('C12', ['trimesh', 'raster_queen'], ['raster_queen', 'profile', 'trimesh'], 'indep.kind.spl')
 _indep('C13', ['raster_queen', 'profile'], ['raster_queen', 'profile', 'trimesh'], 'indep.kind.spl')
 _indep('C14', ['raster_queen', 'raster_rook_nc'], ['raster_queen', 'raster_rook_nc'], 'indep.kind.adi')
+# the routed state (filled elevation, tables, orders, accumulation, basin labels) of independent graphs: under each flow property
+# that has no h_conc run of its own yet (C03, C04, C06 mix these cases into their h_conc workload)
+_indep('C01', ['raster_queen', 'trimesh'], ['raster_queen', 'profile', 'trimesh'], 'indep.kind.routes')
+_indep('C02', ['trimesh', 'raster_queen'], ['raster_queen', 'raster_rook_nc', 'trimesh'], 'indep.kind.routes')
+_indep('C05', ['raster_queen', 'profile'], ['raster_queen', 'profile', 'trimesh'], 'indep.kind.routes')
+_indep('C19', ['profile', 'raster_queen'], ['raster_queen', 'profile', 'trimesh'], 'indep.kind.routes')
+# grids and meshes are built, not only queried, on the two threads
+_indep('C17', ['raster_queen', 'trimesh'], ['raster_queen', 'profile_nc', 'trimesh'], 'indep.kind.grid_queries')
+_indep('C18', ['trimesh', 'trimesh'], ['trimesh'], 'indep.kind.grid_queries')
 
 
 # ------------------------------------------------------------------------------------------------ coverage-guided campaigns
